@@ -597,7 +597,7 @@ fn c13(seed: u64, thorough: bool) -> Scenario {
                 .into_iter()
                 .filter(|l| b.start_line + 1 < *l && *l < b.end_line)
                 .collect();
-            if !inside.is_empty() && !r.lines[b.start_line - 1].contains('~') {
+            if !inside.is_empty() && !r.lines[b.start_line - 1].contains('~') && r.lines[b.start_line - 1].is_ascii() {
                 let l = *g.rng.pick(&inside);
                 g.world.files[fi].diff = FileDiff::Insert {
                     line: b.start_line,
